@@ -979,7 +979,9 @@ func TestExport(t *testing.T) {
 
 type VectorCase struct {
 	Chunks     []ChunkSpec `json:"chunks"`
-	Embeddings [][]float64 `json:"embeddings"` // one non-empty, finite vector per chunk
+	Embeddings [][]float64 `json:"embeddings"`      // one non-empty, finite vector per chunk
+	Holes      []bool      `json:"holes,omitempty"` // second Weaviate export: chunks given an empty vector
+	Short      int         `json:"short,omitempty"` // second Weaviate export: the embeddings slice ends this many chunks early
 	Class      string      `json:"class"`
 	Labels     []string    `json:"labels,omitempty"`
 }
@@ -1136,6 +1138,51 @@ func checkVector(c VectorCase) error {
 		}
 	}
 
+	// Weaviate again with embeddings missing for some chunks (an empty vector, or a slice of embeddings shorter than
+	// the chunks: the exporter documents neither as an error and writes such a chunk without vector): every object
+	// carries its own chunk's vector or none - never another chunk's (round 11)
+	if len(c.Holes) == n && n > 0 {
+		var emb2 [][]float64
+		for i := 0; i < n-c.Short; i++ {
+			if c.Holes[i] {
+				if i%2 == 0 {
+					emb2 = append(emb2, nil)
+				} else {
+					emb2 = append(emb2, []float64{})
+				}
+			} else {
+				emb2 = append(emb2, c.Embeddings[i])
+			}
+		}
+		buf.Reset()
+		if err := ee.ExportForWeaviate(chunks, emb2, c.Class, &buf); err != nil {
+			return fmt.Errorf("ExportForWeaviate (some chunks without embedding) failed: %v", err)
+		}
+		recs, err := parseJSONL(buf.String())
+		if err != nil {
+			return fmt.Errorf("Weaviate (some chunks without embedding): %v", err)
+		}
+		if len(recs) != n {
+			return fmt.Errorf("Weaviate (some chunks without embedding): %d objects for %d chunks", len(recs), n)
+		}
+		for i, obj := range recs {
+			if e := jsonEq("id", obj["id"], c.Chunks[i].ID); e != nil {
+				return fmt.Errorf("Weaviate (some chunks without embedding) object %d: %v", i, e)
+			}
+			if i < len(emb2) && len(emb2[i]) > 0 {
+				if e := vecEq("vector", obj["vector"], emb2[i]); e != nil {
+					return fmt.Errorf("Weaviate (some chunks without embedding) object %d: %v", i, e)
+				}
+				continue
+			}
+			if v, ok := obj["vector"]; ok && v != nil {
+				if arr, isArr := v.([]any); !isArr || len(arr) > 0 {
+					return fmt.Errorf("Weaviate object %d: chunk %q was given no embedding, its object carries vector %s", i, c.Chunks[i].ID, show(v))
+				}
+			}
+		}
+	}
+
 	// PrepareForVectorDB: records serialised with encoding/json
 	prep := ee.PrepareForVectorDB(chunks)
 	if len(prep) != n {
@@ -1191,6 +1238,24 @@ func genVector(t *rapid.T) VectorCase {
 	}
 	c.Class = genString(t, "class")
 	c.Labels = []string{fmt.Sprintf("chunks:%d", min(len(c.Chunks), 3))}
+	// drawn last, so that the cases of earlier rounds stay what they were
+	holes := 0
+	for range c.Chunks {
+		h := rapid.IntRange(0, 2).Draw(t, "noEmbedding") == 0
+		c.Holes = append(c.Holes, h)
+		if h {
+			holes++
+		}
+	}
+	if len(c.Chunks) > 0 {
+		c.Short = rapid.IntRange(0, len(c.Chunks)).Draw(t, "embeddingsShortBy") % (len(c.Chunks) + 1)
+		if rapid.Bool().Draw(t, "allEmbeddingsPresent") {
+			c.Short = 0
+		}
+	}
+	if holes > 0 || c.Short > 0 {
+		c.Labels = append(c.Labels, "some-chunks-without-embedding")
+	}
 	if advCount(c.Chunks) > 0 {
 		c.Labels = append(c.Labels, "adversarial-strings")
 	}
